@@ -105,8 +105,11 @@ def to_sym(e, env):
         if base is None:
             raise Untranslatable("field of %s" % A.unparse(e))
         if base in env.vars and not isinstance(env.vars[base], dict):
-            # a local that is itself a struct-valued symbol: name by path
-            return env.sym("_".join([base] + parts))
+            # a local that is itself a struct-valued symbol: name its fields after what it holds,
+            # not after the local (a renamed local is the same data)
+            v0 = env.vars[base]
+            stem = v0.name if isinstance(v0, sp.Symbol) else base
+            return env.sym("_".join([stem] + parts))
         if base in env.vars and isinstance(env.vars[base], dict):
             d = env.vars[base]
             key = "_".join(parts)
@@ -146,6 +149,21 @@ def to_sym(e, env):
             return to_sym(e["args"][0], env)
         if segs and segs[-1] == "from" and len(e["args"]) == 1:
             return to_sym(e["args"][0], env)
+        # a private helper of the same file: read its body with the parameters bound to the arguments
+        if segs and (len(segs) == 1 or segs[0] == "Self") and getattr(env, "depth", 0) < 3:
+            here = A.owner_fn(e)
+            callee = A._same_file_fn(here, segs[-1]) if here is not None else None
+            if callee is not None and callee.get("body"):
+                params = [A.binding_name(i["pat"]) for i in callee["sig"]["inputs"] if isinstance(i, dict) and "pat" in i]
+                if len(params) == len(e["args"]) and None not in params:
+                    sub = env.copy()
+                    sub.vars = dict(env.vars)
+                    sub.depth = getattr(env, "depth", 0) + 1
+                    for p, a in zip(params, e["args"]):
+                        sub.vars[p] = to_sym(a, env)
+                    tail = bind_lets(callee["body"]["stmts"], sub)
+                    if tail is not None:
+                        return to_sym(tail, sub)
         raise Untranslatable("call %s" % A.unparse(e["func"]))
     raise Untranslatable(k)
 
